@@ -2,7 +2,8 @@
 from __future__ import annotations
 import math, random
 import numpy as np
-from ..core import CheckSpec, Outcome, Lean
+from fractions import Fraction
+from ..core import CheckSpec, Outcome, Lean, rat
 
 SCORERS = ["bias", "pop", "known", "iknn", "iknn-imp", "uknn", "uknn-imp", "als", "ials", "ials-ratings", "funk", "bsvd", "flex-e", "flex-i"]
 
@@ -54,7 +55,7 @@ def run(case: dict, lean: Lean) -> Outcome:
     from lenskit.data import ItemList
     from lenskit.data.query import RecQuery
     name = case["scorer"]; ds, m = _trained(case)
-    V = [int(x) for x in ds.items.ids()]; failed = []; classes = {"scorer:" + name}; keys = set()
+    V = [int(x) for x in ds.items.ids()]; failed = []; classes = {"scorer:" + name}; keys = set(); n_model = 0
     call = (lambda qy, il: m(il)) if name == "pop" else (lambda qy, il: m(qy, il))
     for qd in case["queries"]:
         r = random.Random(qd["seed"]); u = qd["user"]; hk = qd["hist"]
@@ -88,11 +89,24 @@ def run(case: dict, lean: Lean) -> Outcome:
         if not all(_same(s1d[i], s2[i]) for i in base): failed.append(f"{hk} user {u}: permuting the candidates changes a score"); keys.add("?perm")
         if not all(_same(s1d[i], s3[i]) for i in sub): failed.append(f"{hk} user {u}: dropping other candidates changes a score"); keys.add("?subset")
         if len(base) and not all(_same(a, b, 0) for a, b in zip(s1.tolist(), o4.scores().tolist())): failed.append(f"{hk}: repeating the call changes the scores"); keys.add("?repeat")
+        # model-mediated: the list call must be the gather / mask / scatter of the per-item (singleton-call) scores
+        try:
+            ids_all = sorted(set(base)); Vset = set(V)
+            single = {i: float(call(qy, ItemList(item_ids=np.array([i], dtype="i8"))).scores()[0]) for i in ids_all}
+            vocab = ids_all if name == "bias" else [i for i in ids_all if i in Vset]
+            pred = lean.call("c04.scatter", {"items": base, "vocab": vocab, "table": [None if math.isnan(single[i]) else rat(single[i]) for i in vocab]})
+            n_model += 1
+            if [p_["id"] for p_ in pred] != base or [p_["pos"] for p_ in pred] != list(range(len(base))): failed.append(f"{hk}: model order differs"); keys.add("?model-order")
+            for p_, sc in zip(pred, s1.tolist()):
+                want = math.nan if p_["score"] is None else float(Fraction(p_["score"]))
+                if not _same(sc, want): failed.append(f"{hk} user {u}: item {p_['id']} scored {sc} in the list but {want} alone (scatter model)"); keys.add("?scatter"); break
+        except Exception as e:
+            failed.append(f"{hk} user {u}: singleton call raised {type(e).__name__}"); keys.add("?singleton")
         for i in (8888, 9999):
             if i in s1d and not math.isnan(s1d[i]) and name != "bias": failed.append(f"unknown item {i} scored {s1d[i]}"); keys.add("?unknown-item")
     return Outcome(not failed, not failed, tuple(sorted(classes)), {"failed": failed[:8]}, tuple(sorted(keys)) if keys else None)
 
 SPEC = CheckSpec(
-    pid="C04", theorems=["LK.Scatter.C04_Scatter_scoreList_eq_map", "LK.Scatter.C04_Scatter_multFirst_eq"], correspondence_ops=[],
+    pid="C04", theorems=["LK.Scatter.C04_Scatter_scoreList_eq_map", "LK.Scatter.C04_Scatter_multFirst_eq"], correspondence_ops=["c04.scatter"],
     nontrivial_rule="distinct (scorer, query set) reaching ≥1 of: each shipped scorer, each history form, unknown user, unknown candidate, empty candidates",
     budgets={"quick": 14, "thorough": 280}, gen=gen, run=run, shrink=None)
